@@ -459,7 +459,10 @@ def gen_box_style(rng, ctx):
         st.append('margin:%dpx' % rng.choice([0, 2, 5]))
     if r() < 0.15:
         st.append('width:%s' % rng.choice(['50px', '50%', '100px', '10px']))
-    if r() < 0.1:
+    # a multi-column box with a fixed height and a float inside never finishes layout (finding C02-g): no height on
+    # multi-column boxes, no float that is itself multi-column
+    multicol = r() < 0.04
+    if r() < 0.1 and not multicol:
         st.append('height:%s' % rng.choice(['20px', '40px', '5px']))
     if r() < 0.08:
         st.append('position:%s;%s' % (rng.choice(['relative', 'absolute']), rng.choice(['top:3px;left:5px', 'z-index:%d' % rng.choice([-1, 0, 2]),
@@ -481,8 +484,7 @@ def gen_box_style(rng, ctx):
             st.append('font-weight:bold')
     if r() < 0.04:
         st.append('visibility:hidden')
-    # a float that is itself a multi-column box inside a short multi-column box never finishes layout (finding C02-g)
-    if r() < 0.04 and not floated:
+    if multicol and not floated:
         st.append('columns:2;column-rule:' + _border(rng, [1, 3]))
     if r() < 0.04:
         st.append('text-overflow:ellipsis;white-space:nowrap;overflow:hidden;width:30px')
@@ -1618,6 +1620,12 @@ def replay(data):
         (st, o), = common.run_impl('impl_c16', 'stream_direct', [d['case']])
         m = common.eval_cases('c16replay', PRE, CASE_T, [ccase(d['case'], o)], 'stream_judge')
         print('replay: impl', {k: v for k, v in (o or {}).items() if k != 'bytes'}, 'mask', m)
+        return 1 if m[0] else 0
+    if stream == 'res-direct':
+        (st, o), = common.run_impl('impl_c16', 'res_direct', [d['case']])
+        m = common.eval_cases('c16replay', PRE_RES, 'list call * list implstr',
+                              ['(%s, %s)' % (clist(ccall(x) for x in o['calls']), clist(cimplstr(x) for x in o['streams']))], 'res_judge')
+        print('replay: impl', o, 'mask', m)
         return 1 if m[0] else 0
     if stream == 'ast':
         problems, _, _ = ast_pass(common.REPO)
